@@ -82,7 +82,7 @@ theorem getString_at {buf off s} (hs : s.length < 256) (h : At buf off (s.length
   simp only [List.length_singleton] at this
   exact getBytes_at this
 
-def NameOK (d : Name) : Prop := WfName d ∧ d.length ≤ limit
+def NameOK (d : Name) : Prop := WfName d ∧ d.length ≤ limit ∧ wireLen d ≤ Generated.Dns.nameOctetLimit
 
 /-- a name written by `push_compressed_domain` at `off`, read back in place -/
 theorem name_at {d : Name} (hd : NameOK d) {t t' : Tree} {buf bytes : Bytes} {off : Nat}
@@ -94,7 +94,7 @@ theorem name_at {d : Name} (hd : NameOK d) {t t' : Tree} {buf bytes : Bytes} {of
   have htk : (pre ++ bytes ++ post).take pre.length = pre := by
     rw [List.append_assoc, List.take_left' rfl]
   rw [htk] at ht
-  have := pushName_spec d hd.1 hd.2 t t' pre bytes h ht hsz
+  have := pushName_spec d hd.1 hd.2.1 hd.2.2 t t' pre bytes h ht hsz
   refine ⟨this.1 post, ?_⟩
   have htk2 : (pre ++ bytes ++ post).take (pre.length + bytes.length) = pre ++ bytes := by
     rw [show pre.length + bytes.length = (pre ++ bytes).length by simp, List.take_left' rfl]
